@@ -221,55 +221,119 @@ Theorem C08_second_pass_is_verbatim :
 Proof. exact copy_output_stable. Qed.
 Print Assumptions C08_second_pass_is_verbatim.
 
-(* compress: all logs other than its own command logs survive. *)
+(* rtdc_copy (so: repack) leaves the software version chain alone. *)
+Theorem C08_copy_preserves_version :
+  forall (fexists fscalar fbmap defective : Z -> bool)
+         (rekey : Z -> list Z -> Z) (sel : fsel)
+         (inc_basins inc_logs inc_tables : bool) (f : h5file),
+    f_soft (rtdc_copy fexists fscalar fbmap defective rekey sel inc_basins
+                      inc_logs inc_tables f) = f_soft f.
+Proof. exact copy_preserves_version. Qed.
+Print Assumptions C08_copy_preserves_version.
+
+(* RTDCWriter.version_brand (compress, condense, tdms2rtdc open their output
+   with the writer): the chain "a | b | c" of setup:software version gets
+   exactly one more segment, "dclab <current version>", unless it already
+   ends with it.  This is the only metadata key a task may change. *)
+Theorem C08_version_chain_extended_by_one_segment :
+  forall segs : list Z,
+    bump_version segs = segs ++ [SEG_CUR]
+    \/ (bump_version segs = segs /\ segs <> [] /\ last segs 0 = SEG_CUR).
+Proof. exact bump_spec. Qed.
+Print Assumptions C08_version_chain_extended_by_one_segment.
+
+(* compress: all logs other than its own command logs survive ([kold],
+   [kwold]: the md5 names the previous command logs are renamed to). *)
 Theorem C08_compress_keeps_logs :
   forall (fexists fscalar fbmap defective : Z -> bool)
-         (rekey : Z -> list Z -> Z) (warned : bool) (f : h5file)
-         (k : Z) (d : dset),
-    k <> L_CMD -> k <> L_WARN -> k <> L_CMD_OLD -> k <> L_WARN_OLD ->
+         (rekey : Z -> list Z -> Z) (warned : bool) (kold kwold : Z)
+         (f : h5file) (k : Z) (d : dset),
+    k <> L_CMD -> k <> L_WARN -> k <> kold -> k <> kwold ->
     assoc k (f_logs f) = Some d ->
-    assoc k (f_logs (compress fexists fscalar fbmap defective rekey warned f))
+    assoc k (f_logs (compress fexists fscalar fbmap defective rekey warned
+                              kold kwold f))
     = Some (h5ds_copy true d).
 Proof. exact compress_keeps_logs. Qed.
 Print Assumptions C08_compress_keeps_logs.
 
-(* compress as a whole: it is the copy plus log bookkeeping; features are
-   preserved; the previous command log survives under its new name (the md5
-   name is not yet used: it is the md5 of the input file itself). *)
+(* compress as a whole: it is the copy plus log bookkeeping; all metadata
+   are those of the input except the software version, which is extended as
+   stated above. *)
 Theorem C08_compress_is_copy_plus_logs :
   forall (fexists fscalar fbmap defective : Z -> bool)
-         (rekey : Z -> list Z -> Z) (warned : bool) (f : h5file),
-    let c := compress fexists fscalar fbmap defective rekey warned f in
+         (rekey : Z -> list Z -> Z) (warned : bool) (kold kwold : Z)
+         (f : h5file),
+    let c := compress fexists fscalar fbmap defective rekey warned kold kwold
+                      f in
     let g := rtdc_copy fexists fscalar fbmap defective rekey FAll true true
                        true f in
     f_events c = f_events g /\ f_bevents c = f_bevents g
     /\ f_tables c = f_tables g /\ f_basins c = f_basins g
-    /\ f_attrs c = f_attrs f.
+    /\ f_attrs c = f_attrs f
+    /\ f_soft c = bump_version (f_soft f).
 Proof. exact compress_events. Qed.
 Print Assumptions C08_compress_is_copy_plus_logs.
 
 Theorem C08_compress_preserves_features :
   forall (fexists fscalar fbmap defective : Z -> bool)
-         (rekey : Z -> list Z -> Z) (warned : bool)
+         (rekey : Z -> list Z -> Z) (warned : bool) (kold kwold : Z)
          (f : h5file) (name : Z) (n : node),
     assoc name (f_events f) = Some n ->
     fexists name = true -> defective name = false -> node_wf n ->
     exists n',
       assoc name (f_events (compress fexists fscalar fbmap defective rekey
-                                     warned f)) = Some n'
+                                     warned kold kwold f)) = Some n'
       /\ node_same n n'.
 Proof. exact compress_preserves_feature. Qed.
 Print Assumptions C08_compress_preserves_features.
 
+(* the previous command log survives under its new name (the md5 of the input
+   file: not yet used, and none of the reserved names) *)
 Theorem C08_compress_renames_old_log :
   forall (fexists fscalar fbmap defective : Z -> bool)
-         (rekey : Z -> list Z -> Z) (warned : bool) (f : h5file) (d : dset),
-    assoc L_CMD (f_logs f) = Some d -> assoc L_CMD_OLD (f_logs f) = None ->
-    assoc L_CMD_OLD (f_logs (compress fexists fscalar fbmap defective rekey
-                                      warned f))
+         (rekey : Z -> list Z -> Z) (warned : bool) (kold kwold : Z)
+         (f : h5file) (d : dset),
+    kold <> L_CMD -> kold <> L_WARN -> kold <> kwold ->
+    assoc L_CMD (f_logs f) = Some d -> assoc kold (f_logs f) = None ->
+    assoc kold (f_logs (compress fexists fscalar fbmap defective rekey
+                                 warned kold kwold f))
     = Some (h5ds_copy true d).
 Proof. exact compress_renames_old_log. Qed.
 Print Assumptions C08_compress_renames_old_log.
+
+(* compress applied to its own output (other md5 names, other warnings):
+   the same features, internal basin data, tables and metadata; the version
+   chain is not extended again. *)
+Theorem C08_compress_twice_same_data :
+  forall (fexists fscalar fbmap defective defective2 : Z -> bool)
+         (rekey : Z -> list Z -> Z) (w1 w2 : bool) (k1 kw1 k2 kw2 : Z)
+         (f : h5file),
+    let c1 := compress fexists fscalar fbmap defective rekey w1 k1 kw1 f in
+    let c2 := compress fexists fscalar fbmap defective2 rekey w2 k2 kw2 c1 in
+    (forall name, In name (map fst (f_events c1)) -> defective2 name = false) ->
+    (forall name, assoc name (f_events c2) = assoc name (f_events c1))
+    /\ (forall name, assoc name (f_bevents c2) = assoc name (f_bevents c1))
+    /\ f_tables c2 = f_tables c1 /\ f_attrs c2 = f_attrs c1
+    /\ f_soft c2 = f_soft c1.
+Proof. exact compress_twice_same_data. Qed.
+Print Assumptions C08_compress_twice_same_data.
+
+(* repack --strip-basins [--strip-logs] applied to its own output. *)
+Theorem C08_second_copy_strip_basins :
+  forall (fexists fscalar fbmap defective defective2 : Z -> bool)
+         (rekey : Z -> list Z -> Z) (inc_logs inc_tables : bool) (f : h5file),
+    let g := rtdc_copy fexists fscalar fbmap defective rekey FAll false
+                       inc_logs inc_tables f in
+    let h := rtdc_copy fexists fscalar fbmap defective2 rekey FAll false
+                       inc_logs inc_tables g in
+    NoDup (map fst (f_events f)) ->
+    (forall name, In name (map fst (f_events g)) -> defective2 name = false) ->
+    (forall name, assoc name (f_events h) = assoc name (f_events g))
+    /\ f_bevents h = [] /\ f_bevents g = [] /\ f_basins h = [] /\ f_basins g = []
+    /\ f_logs h = f_logs g /\ f_tables h = f_tables g /\ f_attrs h = f_attrs g
+    /\ f_soft h = f_soft g.
+Proof. exact second_copy_strip_basins. Qed.
+Print Assumptions C08_second_copy_strip_basins.
 
 (* The copy applied to its own output changes no data: same features, same
    internal basin data, same logs, tables and metadata (exact equality, layout
@@ -309,6 +373,7 @@ Theorem C08_tdms_export_all :
 Proof. exact tdms_export_all. Qed.
 Print Assumptions C08_tdms_export_all.
 
+(* (definitional: unfolds the export of a list) *)
 Theorem C08_tdms_export_values :
   forall (kept : list Z) (vals : list elem) (j : nat),
     (j < length kept)%nat ->
@@ -329,22 +394,72 @@ Theorem C08_condense_feature_set :
 Proof. exact condense_feature_set. Qed.
 Print Assumptions C08_condense_feature_set.
 
-Theorem C08_condense_scalar_equal :
+Theorem C08_condense_selected_features_stored :
   forall (fexists fscalar fbmap defective : Z -> bool)
          (rekey : Z -> list Z -> Z) (fsc : Z -> bool)
-         (dsval : Z -> list elem) (sa sb w : bool)
+         (dsval : Z -> list elem) (sa sb w h5 : bool) (kold kwold : Z)
          (loaded basin anc : list Z) (f : h5file) (x : Z),
-    let g := rtdc_copy fexists fscalar fbmap defective rekey FScalar true true
-                       true f in
+    let g := condense_base fexists fscalar fbmap defective rekey h5 f in
     let out := condense fexists fscalar fbmap defective rekey fsc dsval
-                        sa sb w loaded basin anc f in
+                        sa sb w h5 kold kwold loaded basin anc f in
     In x (condense_features fsc sa sb loaded basin anc g) ->
     match assoc x (f_events g) with
     | Some n => assoc x (f_events out) = Some n
     | None => assoc x (f_events out) = Some (stored_feature dsval x)
     end.
 Proof. exact condense_scalar_features. Qed.
+Print Assumptions C08_condense_selected_features_stored.
+
+(* condense of an .rtdc file: every stored, recognised, unmarked scalar
+   feature keeps shape, elements, dtype and attributes (copy theorem composed
+   with: the writer loop never replaces an existing feature). *)
+Theorem C08_condense_scalar_equal :
+  forall (fexists fscalar fbmap defective : Z -> bool)
+         (rekey : Z -> list Z -> Z) (fsc : Z -> bool)
+         (dsval : Z -> list elem) (sa sb w : bool) (kold kwold : Z)
+         (loaded basin anc : list Z) (f : h5file) (name : Z) (n : node),
+    assoc name (f_events f) = Some n -> fscalar name = true ->
+    fexists name = true -> defective name = false -> node_wf n ->
+    exists n',
+      assoc name (f_events (condense fexists fscalar fbmap defective rekey fsc
+                                     dsval sa sb w true kold kwold loaded
+                                     basin anc f)) = Some n'
+      /\ node_same n n'.
+Proof. exact condense_preserves_stored_scalar. Qed.
 Print Assumptions C08_condense_scalar_equal.
+
+(* condense of a .tdms file: exactly the selected scalar features, each as
+   handed to the writer (ds[feat] of the tdms reader: oracle), nothing else. *)
+Theorem C08_condense_tdms_features :
+  forall (fexists fscalar fbmap defective : Z -> bool)
+         (rekey : Z -> list Z -> Z) (fsc : Z -> bool)
+         (dsval : Z -> list elem) (sa sb w : bool) (kold kwold : Z)
+         (loaded basin anc : list Z) (f : h5file) (x : Z),
+    let out := condense fexists fscalar fbmap defective rekey fsc dsval
+                        sa sb w false kold kwold loaded basin anc f in
+    assoc x (f_events out)
+    = (if memZ x (condense_features fsc sa sb loaded basin anc empty_file)
+       then Some (stored_feature dsval x) else None)
+    /\ f_bevents out = [] /\ f_tables out = [] /\ f_basins out = [].
+Proof. exact condense_tdms_features. Qed.
+Print Assumptions C08_condense_tdms_features.
+
+(* condense keeps what the copy wrote; metadata as in the input, version
+   chain extended by one segment. *)
+Theorem C08_condense_keeps_copy_and_metadata :
+  forall (fexists fscalar fbmap defective : Z -> bool)
+         (rekey : Z -> list Z -> Z) (fsc : Z -> bool)
+         (dsval : Z -> list elem) (sa sb w : bool) (kold kwold : Z)
+         (loaded basin anc : list Z) (f : h5file),
+    let g := rtdc_copy fexists fscalar fbmap defective rekey FScalar true true
+                       true f in
+    let out := condense fexists fscalar fbmap defective rekey fsc dsval
+                        sa sb w true kold kwold loaded basin anc f in
+    f_bevents out = f_bevents g /\ f_tables out = f_tables g
+    /\ f_basins out = f_basins g /\ f_attrs out = f_attrs f
+    /\ f_soft out = bump_version (f_soft f).
+Proof. exact condense_keeps_copy. Qed.
+Print Assumptions C08_condense_keeps_copy_and_metadata.
 
 (* Basin definitions (compress, repack without --strip-basins, condense: any
    feature selection).  Hypotheses about the md5 names: injective, and never
@@ -415,13 +530,14 @@ Print Assumptions C08_unmarked_file_has_no_defective_feature.
 
 Theorem C08_recent_dclab_marks_only_aspect_and_f32_time :
   forall (x : dfacts) (c : Z) (w : ver),
-    df_last_dclab x = Some w -> ver_ltb w (0, 48, 3) = false ->
+    df_last_dclab x = Some w -> ver_ltb w (0, 48, 3, 0) = false ->
     defective_code x c = true ->
     (c = D_ASPECT /\ df_exact_aspect x = true)
     \/ (c = D_TIME /\ df_time_f32 x = true /\ df_has_frame x = true).
 Proof. exact recent_dclab_marks_only_aspect_and_f32_time. Qed.
 Print Assumptions C08_recent_dclab_marks_only_aspect_and_f32_time.
 
+(* (definitional: restates the model; the string tests are input facts) *)
 Theorem C08_aspect_marker_is_exact :
   forall x : dfacts, defective_code x D_ASPECT = df_exact_aspect x.
 Proof. exact aspect_marker_is_exact. Qed.
